@@ -362,6 +362,24 @@ impl Findings {
 
 pub fn install_quiet_panic_hook() {
     std::panic::set_hook(Box::new(|_| {}));
+    // let every log statement of the crate under test evaluate its arguments (no logger is
+    // installed, so nothing is formatted or printed): behaviour must not depend on logging
+    log::set_max_level(log::LevelFilter::Trace);
+}
+
+/// Inputs that are rejected at different stages (lexer, argument parsers, grammar, inside open
+/// parentheses) and accepted inputs with misplaced options: parsed before batches of cases so that
+/// state leaking out of earlier calls on the same thread becomes visible.
+pub fn poison_parses(rounds: usize) {
+    const INPUTS: [&str; 18] = [
+        "( -true", "( ( -true -o )", "( )", "( -name a ( -uid 1", "-true -name b -bogu", "-uid 5x", "-size 10k%", "-type f5", "-perm u+x,", "-printf 'a'b",
+        "-name core -threads 4", "-true -depth", "-name éééééé )", "( -name 日本語", "-true -o", "-fprint", "-name x -o ( -bogus", "-threads 4x",
+    ];
+    for _ in 0..rounds {
+        for i in INPUTS {
+            let _ = catch(|| lipe_find_parser::parse(i).map(|_| ()).map_err(|e| e.to_string()));
+        }
+    }
 }
 
 /// Run `f`, converting a panic into `Err(message)`.
@@ -555,6 +573,21 @@ pub fn truncate(s: &str, n: usize) -> String {
         let t: String = s.chars().take(n).collect();
         format!("{t}…")
     }
+}
+
+/// Non-ASCII characters whose code point has the same low byte as the ASCII character `c`
+/// (code that truncates a char to a byte would take them for `c`).
+pub fn lookalikes(c: char) -> Vec<char> {
+    let b = c as u32;
+    if b >= 0x80 {
+        return vec![];
+    }
+    [0x0100u32, 0x0400, 0x2200, 0x3000, 0x5c00, 0x1f600].iter().filter_map(|base| char::from_u32(base + b)).filter(|x| !x.is_whitespace() && !x.is_control()).collect()
+}
+
+/// `s` with every character replaced by one of its look-alikes (variant `k`)
+pub fn lookalike_string(s: &str, k: usize) -> String {
+    s.chars().map(|c| lookalikes(c).get(k).copied().unwrap_or(c)).collect()
 }
 
 /// Monotone index mapping for shrinking-friendly choices.
